@@ -213,10 +213,11 @@ func c18r4(c *Ctx) {
 	c.Check("a stored certificate always gets its rotation scheduled", sets[0].Pos(), !miss, "a path stores the certificate without scheduling its renewal: it is served until it expires")
 	c.Check("a scheduled rotation always belongs to a stored certificate", pushes[0].Pos(), precededOnAllPaths(fn, pushes[0], func(i ssa.Instruction) bool { return i == sets[0] }), "a rotation is scheduled for a certificate that was not stored")
 	// the delayed task
+	// the function literal handed to PushDelayed, or the named method / helper it delegates to
 	var task *ssa.Function
 	for _, a := range fn.AnonFuncs {
-		if len(callsIn(a, setW)) > 0 {
-			task = a
+		if g := funcHoldingDeep(a, func(i ssa.Instruction) bool { return isCallTo(i, setW) }, 2); g != nil {
+			task = g
 		}
 	}
 	if task == nil {
